@@ -1053,6 +1053,14 @@ func (g *Gen) callAnchorsInvoke(fr *Frame, st *State, c *ssa.CallCommon, args []
 				env.vars[fmt.Sprintf("arg%d", i)] = env.vars[n]
 			}
 		}
+		// the names the interface method's own contract gives its parameters (receiver first)
+		if mc := g.P.contracts[ifaceKey(c)]; mc != nil && len(mc.ParamNames) == sig.Params().Len()+1 {
+			for i := 0; i < sig.Params().Len() && i < len(args); i++ {
+				if n := mc.ParamNames[i+1]; n != "" && n != "_" && args[i].T != "" {
+					env.vars[n] = CV{T: args[i].T, Ty: sig.Params().At(i).Type()}
+				}
+			}
+		}
 		goal := env.evalBool(a.Clause.Expr)
 		g.callSeq["callanchor:"+name+":"+a.Clause.Label]++
 		n := g.callSeq["callanchor:"+name+":"+a.Clause.Label]
